@@ -859,6 +859,7 @@ def add_empty_sandbox_lua_module(wtp: "Wtp") -> None:
         (f"{ns_name}:_sandbox_phase1", ns_id),
     ).fetchone()
     if exists is None:
+        in_transaction = wtp.db_conn.in_transaction
         try:
             wtp.add_page(
                 f"{ns_name}:_sandbox_phase1", ns_id, body="", model="Scribunto"
@@ -870,6 +871,10 @@ def add_empty_sandbox_lua_module(wtp: "Wtp") -> None:
             # made stale; SQLite refuses to turn such a snapshot into a
             # write ("database is locked", at once).  A connection of its
             # own can write, and waits its turn if it has to.
+            if not in_transaction:
+                # end the transaction the failed INSERT has opened, or
+                # every later write of this context fails the same way
+                wtp.db_conn.rollback()
             conn = sqlite3.connect(wtp.db_path)
             try:
                 conn.execute(
